@@ -39,7 +39,8 @@ def cntname(c):
 
 
 def swname(n):
-    return 'zs' + letters(n)
+    # every other switch name contains "if" again after the prefix (\newif\ifzsifb -> \zsifbtrue / \zsifbfalse)
+    return 'zs' + ('if' if int(n) % 2 else '') + letters(n)
 
 
 # ---- printer -----------------------------------------------------------------------------------
@@ -71,9 +72,15 @@ class Printer:
         if k == 'false':
             return '\\iffalse '
         if k == 'num':
-            return '\\ifnum%s%s%s\\relax ' % (self._numlead(t[1]), t[2], self.operand(t[3]))
+            # the second number is terminated by \relax or by one blank (style flag t[4]; the evaluator ignores it)
+            b = self.operand(t[3])
+            # (a blank after a control word is eaten by the tokenizer and would terminate nothing: \relax then)
+            end = ' ' if len(t) > 4 and t[4] == 'space' and not b[-1:].isalpha() else '\\relax '
+            return '\\ifnum%s%s%s%s' % (self._numlead(t[1]), t[2], b, end)
         if k == 'odd':
-            return '\\ifodd%s\\relax ' % self._numlead(t[1])
+            a = self._numlead(t[1])
+            end = ' ' if len(t) > 2 and t[2] == 'space' and not a[-1:].isalpha() else '\\relax '
+            return '\\ifodd%s%s' % (a, end)
         if k == 'dim':
             return '\\ifdim %s%s%s%s%s\\relax ' % (t[1][0], t[1][1], t[2], t[3][0], t[3][1])
         if k == 'switch':
